@@ -241,6 +241,49 @@ def run(tier, seed):
                 ofail.append({"what": "collects through the audit loop", "config": text, "events": g.events_json(evs), "produced": [str(v) for v in prod],
                               "impl": im["vars"].get("bin"), "oracle": o, "tag": {"fn": "collects:" + a0["mode"]}})
         rep.sample({"config": text, "events": len(evs), "vars": {k: str(v) for k, v in mo["vars"].items()}}, cap=2)
+    # ---- K/O-C11c: relays — a later member collects a variable that an earlier member computes from the signal; the
+    # samples repeat their value often: every assignment counts, not only those that change the value
+    for _ in range(80 if tier == "quick" else 1500):
+        mode, n = rng.pick(MODES), rng.range(1, 6)
+        src = rng.pick([g.var("s", "a"), ("bin", "sub", g.var("s", "a"), g.num(2))])
+        cfg = {"signals": [("s", "scalar")], "actors": ["a"], "members": [
+            {"name": "m0", "cond": g.TRUE, "assigns": [{"target": "x", "mode": "single", "n": 0, "expr": src}], "expect": None, "watches": []},
+            {"name": "m1", "cond": g.TRUE, "assigns": [{"target": "h", "mode": mode, "n": n, "expr": g.var("x")},
+                                                      {"target": "cnt", "mode": "single", "n": 0, "expr": ("call1", "count", g.var("h"))}], "expect": None, "watches": []},
+            {"name": "w", "cond": None, "assigns": [], "expect": None, "watches": [("", "h"), ("", "cnt")]}]}
+        evs, t, last = [], F(0), F(rng.range(0, 5))
+        for _k in range(rng.range(2, 14)):
+            t += F(rng.range(1, 4), 2)
+            if not rng.chance(1, 2):
+                last = F(rng.range(0, 5))
+            evs.append(("sig", t, [("scalar", "a", "s", last)]))
+        text = g.config_text(cfg)
+        r = impl.call("audition", Args={"Parse": {"Text": text}, "Events": g.events_json(evs), "EpochOffset": float(TEND)})
+        if r.get("Panicked") or r.get("harnessCrash") or r.get("Err"):
+            kdis.append({"config": text, "problem": r.get("Err") or r.get("Panic") or "crash"})
+            continue
+        ms = model.ask(g.model_request(cfg, evs, TEND))
+        im, mo = g.parse_impl(r), g.parse_model(ms or "")
+        rep.case(("relay", text, json.dumps([str(e) for e in evs])))
+        rep.count("relay:" + mode)
+        if ms is None or ms.startswith("bad-op") or mo["abort"] != "none" or im["abort"] != "none":
+            kdis.append({"config": text, "problem": "relay: model %s / impl %s" % (ms and mo["abort"], im.get("err"))})
+            continue
+        for k, v in mo["vars"].items():
+            iv = im["vars"].get(k)
+            if isinstance(iv, list) and v is None:
+                v = []
+            if not g.num_eq(iv, v, TEND):
+                kdis.append({"config": text, "events": [str(e) for e in evs], "vars": {"var": k, "impl": iv, "model": str(v)}})
+                break
+        # one production per round in which m1 runs with x available: every sample round (m0 assigns x, which wakes m1),
+        # and the final round (every auditor still auditing runs; a computed variable stays available once assigned)
+        prod = [e[2][0][3] - (2 if src[0] == "bin" else 0) for e in evs]
+        prod = prod + prod[-1:]
+        o = model.ask("C11 collectspec %s %d %s %s" % (mode, n, ",".join(g.sc_tok(v) for v in prod) or "-", impl_val_tok(im["vars"].get("h"))))
+        if o != "ok":
+            ofail.append({"what": "a later member collects a computed variable", "config": text, "events": g.events_json(evs), "produced": [str(v) for v in prod],
+                          "impl": im["vars"].get("h"), "oracle": o, "tag": {"fn": "relay:" + mode}})
     rep.obligation("K-C11: collectFns / evalFunctions / assignments through the audit loop vs model", "K", not kdis, json.dumps(kdis[:3], default=str)[:1800])
     rep.obligation("O-C11: specification (collectSpec, funcOk) on the real results", "O", not ofail, json.dumps(ofail[:3], default=str)[:1800])
     if ofail:
